@@ -69,6 +69,9 @@ func ZZC15Hdr(n int) {
 		wantKey = "version"
 	}
 	versions := []string{"1", "2.x", "v-3"}
+	if zzv.Choice("empty-version", 2) == 1 {
+		versions = append(versions, "") // an absent parameter reads as "": listed, it is accepted
+	}
 	m := NewHeaderVersion(param, key, func(error) {}, versions...)
 	req := zzReq("GET", "/p")
 	ctx := types.NewContext()
